@@ -399,11 +399,10 @@ extern "C" FILE *__wrap_fopen(const char *path, const char *mode)
 // ------------------------------------------------------------------ callback sink
 extern "C" void sim_error_fn(const char *message, void *arg, vnaerr_category_t category)
 {
-    (void)arg;
     int e = errno;
     int depth = g_sim.in_lib;
     g_sim.in_lib = 0;
-    g_sim.callbacks.push_back(CallbackRec{(int)category, message ? message : "(null)", e});
+    g_sim.callbacks.push_back(CallbackRec{(int)category, message ? message : "(null)", e, arg});
     g_sim.in_lib = depth;
     errno = e;
 }
